@@ -180,7 +180,10 @@ func (m *Monitor) check(g *G, sh *shadow, write bool, what string) {
 	}
 	for i := range sh.reads {
 		if sh.reads[i].g == g.id {
-			sh.reads[i].clk = me.clk
+			if sh.reads[i].clk != me.clk {
+				sh.reads[i].clk = me.clk
+				sh.reads[i].pos = g.stackRef()
+			}
 			return
 		}
 	}
